@@ -15,12 +15,14 @@ Per target:
   fix       parameter -> (Lean text, 'module:callable'): how a callable parameter is instantiated in
             the theorem and in the differential
 """
-from py2lean import Target, Prim, T  # noqa
+import py2lean
+from py2lean import Target, Prim, T, INT, BOOL, STR, NONE  # noqa
 
 
 class Area:
-    def __init__(self, name, imports, drv_imports=(), ambient_values=None, opens=()):
+    def __init__(self, name, imports, drv_imports=(), ambient_values=None, opens=(), uses=()):
         self.name, self.imports, self.drv_imports = name, list(imports), list(drv_imports)
+        self.uses = list(uses)          # areas whose translated functions this one calls (generated first)
         self.ambient_values = dict(ambient_values or {})
         self.opens = list(opens)
 
@@ -50,6 +52,42 @@ UNIVERSES = {
     'Nat': dict(structural_eq=True, codec=('Yaql.Drv.SrcCodec.decNat', 'Yaql.Drv.SrcCodec.encNat')),
 }
 
+VALUE = '@Yaql.Value'
+UNIVERSES['Yaql.Value'] = dict(
+    # python `==` on values is the model's pyEq (1 == True == 1.0 ...)
+    ops={'Eq': Prim('(Yaql.Value.pyEq {0} {1})', [VALUE, VALUE], BOOL),
+         'NotEq': Prim('(!Yaql.Value.pyEq {0} {1})', [VALUE, VALUE], BOOL)},
+    inject={'int': '(Yaql.Value.int {0})', 'bool': '(Yaql.Value.bool {0})', 'str': '(Yaql.Value.str {0})',
+            '[@Yaql.Value]': '(Yaql.Value.list {0})'},
+    codec=('Yaql.Drv.valOfJson', 'Yaql.Drv.valToJson'),
+)
+
+# calls of library functions that are primitives of the translation (dotted name as written in the source)
+py2lean.GLOBAL_PRIMS.update({
+    'itertools.takewhile': Prim('(List.takeWhile {0} {1})', [None, None], lambda r, a: a[1]),
+    'itertools.dropwhile': Prim('(List.dropWhile {0} {1})', [None, None], lambda r, a: a[1]),
+    # islice(xs, stop) / islice(xs, start, stop): the bounds are checked when the islice object is built
+    'itertools.islice': Prim('(Yaql.Py.islice {0} {1} {2})', [None, 'int?', 'int?'], lambda r, a: a[0], opt=1,
+                             optwrap=False, defaults=['Yaql.Py.isliceStopOnly'], partial=True),
+    'itertools.chain': Prim('({0} ++ {1})', [None, None], lambda r, a: a[0]),
+    'iter': Prim('{0}', [None], lambda r, a: a[0]),
+})
+py2lean.GLOBAL_CONSTS.update({
+    'utils.NO_VALUE': ('none', NONE),          # the "no value" sentinel is the `none` of an Option
+})
+
+def _is_int(v):
+    return isinstance(v, int) and not isinstance(v, bool)
+
+
+# closed families of total callables for callable parameters (lean decoder in Drv/SrcCodec.lean, same order)
+FN_FAMILIES = {
+    T('fn(@Yaql.Value) -> bool'): ('Yaql.Drv.SrcCodec.decPredV', [
+        lambda v: False, lambda v: True, _is_int, lambda v: _is_int(v) and v > 1, lambda v: v is None,
+        lambda v: isinstance(v, str)]),
+}
+
+VL = '[@Yaql.Value]'
 CFG = [('cfg', 'Yaql.Strings.Cfg')]
 
 # ------------------------------------------------------------------------------------------------ C19 strings.py
@@ -138,6 +176,148 @@ target(S + 'len_', area='Strings', owners=['C19'],
 target(S + 'to_char_array', area='Strings', owners=['C19'],
        params=[('string', 'str')], ret='[str]',
        model='Yaql.Strings.toCharArray string', theorem='to_char_array_src_eq')
+
+
+# ------------------------------------------------------------------------------------------------ C08 utils.py limits
+area('Limits', imports=['Yaql.Model.PyPrelude', 'Yaql.Model.Limits'])
+
+U = 'yaql.language.utils:'
+QUOTA_ERR = {'exceptions.MemoryQuotaExceededException': '(.other 1)',
+             'exceptions.CollectionTooLargeException': '(.other 2)'}
+py2lean.DEFAULT_ERRORS.update(QUOTA_ERR)
+SIZES = [('sizes', 'Yaql.Limits.SizeCfg'), ('kind', 'Yaql.Limits.SeqK')]
+SIZES_VALUES = {'sizes': 'Yaql.Gen.Sizes.cfg', 'kind': 'Yaql.Limits.SeqK.tuple'}
+# an object whose size is taken with sys.getsizeof is represented by that size (a Nat); the objects the callers
+# build are turned into their sizes by the size model of Yaql.Limits over the constants of the running CPython
+UNIVERSES['Nat']['inject'] = {
+    '[]': '(Yaql.Limits.SizeCfg.tupleHdr {sizes})',
+    '[@Yaql.Value]': '(Yaql.Limits.SizeCfg.seqSize {sizes} {kind} {0}.length)',
+    'str': '(Yaql.Limits.SizeCfg.strSize {sizes} (Yaql.Limits.strClassOf (Yaql.Py.maxCp {0})) {0}.length)',
+}
+
+
+class _Sized:
+    def __init__(self, n):
+        self.n = n
+
+    def __sizeof__(self):
+        return self.n
+
+
+def _sized(n):
+    """a python object with sys.getsizeof(obj, 0) == n (for n above the GC header)"""
+    import sys
+    over = sys.getsizeof(_Sized(1000), 0) - 1000
+    return _Sized(n - over)
+
+
+target(U + 'limit_memory_usage', area='Limits', owners=['C08'], raises=True, vararg=True, errors=QUOTA_ERR,
+       callname='utils.limit_memory_usage',
+       params=[('quota_or_engine', 'int'), ('args', '[(int, @Nat)]')], ret='unit',
+       prims={'sys.getsizeof': Prim('(({0} : Nat) : Int)', ['@Nat', 'int'], INT)},
+       pyargs=lambda q, args: (q, tuple((c, _sized(n)) for c, n in args)),
+       pre=lambda q, args: all(n >= 16 for _c, n in args),
+       model='if Yaql.Limits.limitMemory quota_or_engine args then .ok () else .error (.other 1)',
+       theorem='limit_memory_usage_src_eq',
+       note='quota given directly (the int branch of isinstance(quota_or_engine, int)); the differential uses sample '
+            'objects of size >= 16 (a python object cannot be smaller than its GC header)')
+target(U + 'limit_iterable', area='Limits', owners=['C08'], raises=True, errors=QUOTA_ERR, name='limit_iterable_sized',
+       params=[('iterable', VL), ('limit_or_engine', 'int')], ret=VL,
+       model='match Yaql.Limits.limitSized (Yaql.Py.limitOf limit_or_engine) iterable.length with '
+             '| .ok _ => .ok iterable | .error _ => .error (.other 2)',
+       theorem='limit_iterable_sized_src_eq')
+target(U + 'limit_iterable', area='Limits', owners=['C08'], raises=True, errors=QUOTA_ERR, name='limit_iterable_iter',
+       params=[('iterable', 'iter[@Yaql.Value]'), ('limit_or_engine', 'int')], ret=VL,
+       model='match Yaql.Limits.limitSized (Yaql.Py.limitOf limit_or_engine) iterable.length with '
+             '| .ok _ => .ok iterable | .error _ => .error (.other 2)',
+       theorem='limit_iterable_iter_src_eq',
+       note='the counting generator consumed to the end: it raises iff the sized check would')
+
+# ------------------------------------------------------------------------------------------------ C13 collections / queries
+area('Seq', imports=['Yaql.Model.PyPrelude', 'Yaql.Model.Seq', 'Yaql.Model.Limits', 'Yaql.Gen.SrcLimits'],
+     uses=['Limits'], drv_imports=['Yaql.Gen.Sizes'], ambient_values=SIZES_VALUES)
+
+Q = 'yaql.standard_library.queries:'
+C = 'yaql.standard_library.collections:'
+PRED = 'fn(@Yaql.Value) -> bool'
+TOLIST = ('(fun (xs : List Yaql.Value) => xs)', 'builtins:list')
+SEQ = 'Yaql.Seq.'
+
+target(C + 'list_insert', area='Seq', owners=['C13'], raises=True,
+       params=[('collection', VL), ('position', 'int'), ('value', VALUE)], ret=VL,
+       model='if Yaql.Py.ssizeOk position then .ok (%slistInsert position value collection) else .error .overflowError' % SEQ,
+       theorem='list_insert_src_eq')
+target(C + 'iter_insert', area='Seq', owners=['C13'],
+       params=[('collection', VL), ('position', 'int'), ('value', VALUE)], ret=VL,
+       model=SEQ + 'iterInsert position value collection', theorem='iter_insert_src_eq')
+target(C + 'insert_many', area='Seq', owners=['C13'],
+       params=[('collection', VL), ('position', 'int'), ('values', VL)], ret=VL,
+       model=SEQ + 'insertMany position values collection', theorem='insert_many_src_eq')
+target(C + 'delete', area='Seq', owners=['C13'],
+       params=[('collection', VL), ('position', 'int'), ('count', 'int')], ret=VL,
+       model=SEQ + 'delete position count collection', theorem='delete_src_eq')
+target(C + 'replace', area='Seq', owners=['C13'],
+       params=[('collection', VL), ('position', 'int'), ('value', VALUE), ('count', 'int')], ret=VL,
+       model=SEQ + 'replace position count value collection', theorem='replace_src_eq')
+target(C + 'replace_many', area='Seq', owners=['C13'],
+       params=[('collection', VL), ('position', 'int'), ('values', VL), ('count', 'int')], ret=VL,
+       model=SEQ + 'replaceMany position count values collection', theorem='replace_many_src_eq')
+target(Q + 'index_of', area='Seq', owners=['C13'],
+       params=[('collection', VL), ('item', VALUE)], ret='int',
+       model=SEQ + 'indexOf item collection', theorem='index_of_src_eq')
+target(Q + 'last_index_of', area='Seq', owners=['C13'],
+       params=[('collection', VL), ('item', VALUE)], ret='int',
+       model=SEQ + 'lastIndexOf item collection', theorem='last_index_of_src_eq')
+target(Q + 'index_where', area='Seq', owners=['C13'],
+       params=[('collection', VL), ('predicate', PRED)], ret='int',
+       model=SEQ + 'indexWhere predicate collection', theorem='index_where_src_eq')
+target(Q + 'last_index_where', area='Seq', owners=['C13'],
+       params=[('collection', VL), ('predicate', PRED)], ret='int',
+       model=SEQ + 'lastIndexWhere predicate collection', theorem='last_index_where_src_eq')
+target(Q + 'enumerate_', area='Seq', owners=['C13'],
+       params=[('collection', VL), ('start', 'int')], ret=VL,
+       model=SEQ + 'enumerateFrom start collection', theorem='enumerate_src_eq')
+target(Q + 'append', area='Seq', owners=['C13'],
+       params=[('collection', VL), ('args', VL)], ret=VL,
+       model=SEQ + 'append collection args', theorem='append_src_eq')
+target(Q + 'take_while', area='Seq', owners=['C13', 'C14'],
+       params=[('collection', VL), ('predicate', PRED)], ret=VL,
+       model=SEQ + 'takeWhile predicate collection', theorem='take_while_src_eq')
+target(Q + 'skip_while', area='Seq', owners=['C13', 'C14'],
+       params=[('collection', VL), ('predicate', PRED)], ret=VL,
+       model=SEQ + 'skipWhile predicate collection', theorem='skip_while_src_eq')
+target(Q + 'skip', area='Seq', owners=['C13', 'C14'], raises=True,
+       params=[('collection', VL), ('count', 'int')], ret=VL,
+       model='if Yaql.Py.isliceOk count then .ok (%sskip count.toNat collection) else .error .valueError' % SEQ,
+       theorem='skip_src_eq')
+target(Q + 'limit', area='Seq', owners=['C13', 'C14'], raises=True,
+       params=[('collection', VL), ('count', 'int')], ret=VL,
+       model='if Yaql.Py.isliceOk count then .ok (%stake count.toNat collection) else .error .valueError' % SEQ,
+       theorem='limit_src_eq')
+target(Q + 'split_at', area='Seq', owners=['C13'],
+       params=[('collection', VL), ('index', 'int'), ('to_list', 'fn(%s) -> %s' % (VL, VL))], ret='[%s]' % VL,
+       fix={'to_list': TOLIST},
+       model='[(%ssplitAt index collection).1, (%ssplitAt index collection).2]' % (SEQ, SEQ), theorem='split_at_src_eq')
+target(Q + 'any_', area='Seq', owners=['C13'],
+       params=[('collection', VL), ('predicate', '(%s)?' % PRED)], ret='bool', diff=False,
+       model='match predicate with | none => !collection.isEmpty | some p => %sany_ p collection' % SEQ,
+       theorem='any_src_eq')
+target(Q + 'split_where', area='Seq', owners=['C13'], raises=True, fuel=True, fuel_expr='collection.length',
+       params=[('collection', VL), ('predicate', PRED), ('to_list', 'fn(%s) -> %s' % (VL, VL))], ret='[%s]' % VL,
+       fix={'to_list': TOLIST},
+       model='.ok (%ssplitWhere predicate collection)' % SEQ, theorem='split_where_src_eq')
+target(C + 'list_by_int', area='Seq', owners=['C13', 'C08'], raises=True, ambient=SIZES,
+       params=[('left', VL), ('right', 'int'), ('engine', 'int')], ret=VL,
+       pre=lambda left, right, engine: abs(right) < 2 ** 20,
+       model='if Yaql.Limits.listByIntCheck sizes engine kind left.length right then .ok (%slistByInt left right) '
+             'else .error (.other 1)' % SEQ, theorem='list_by_int_src_eq',
+       note='engine = the memory quota; sequence repetition beyond 2^20 copies is outside the differential '
+            '(MemoryError / OverflowError of the allocator)')
+target(C + 'int_by_list', area='Seq', owners=['C13'], raises=True, ambient=SIZES,
+       params=[('left', 'int'), ('right', VL), ('engine', 'int')], ret=VL,
+       pre=lambda left, right, engine: abs(left) < 2 ** 20,
+       model='if Yaql.Limits.listByIntCheck sizes engine kind right.length left then .ok (%slistByInt right left) '
+             'else .error (.other 1)' % SEQ, theorem='int_by_list_src_eq')
 
 
 def by_area():
